@@ -353,3 +353,32 @@ func TestVerifRoutingRegistration(t *testing.T) {
 	}
 	c.Done()
 }
+
+// Every supported method: tables of one or two routes on the same pattern under every pair
+// of the seven methods, requested with each of them (and with an unsupported one): handler,
+// 405 with exactly the other registered methods in Allow, or 404.
+func TestVerifRoutingMethods(t *testing.T) {
+	defer vrt.WriteReport()
+	if !vrt.Shard(1) {
+		return
+	}
+	methods := []string{"DELETE", "GET", "HEAD", "OPTIONS", "PATCH", "POST", "PUT"}
+	c := vrt.NewCases("routing/all-methods")
+	for _, pat := range []string{"/a", "/:x", "/a/:x"} {
+		for i, m1 := range methods {
+			for _, m2 := range methods[i:] {
+				table := []rRoute{{m1, pat}}
+				if m2 != m1 {
+					table = append(table, rRoute{m2, pat})
+				}
+				reqPath := map[string]string{"/a": "/a", "/:x": "/q", "/a/:x": "/a/q"}[pat]
+				checkTable(c, table, append(append([]string{}, methods...), "TRACE"), []string{reqPath, "/nomatch/at/all"})
+				if c.NumViolations() > 0 {
+					c.Done()
+					return
+				}
+			}
+		}
+	}
+	c.Done()
+}
